@@ -1,9 +1,60 @@
 (* C21: a signaling send is acknowledged only after the partner received it;
    acks and clears only affect the message they name.
-   Part 1 (this file, client transition system, relay = arbitrary environment).
-   Part 2 (composition with the relay model) is in the theorems c21_e2e_* below
-   when SignalClient/Compose.v is present. *)
-From Bifrost Require Import Lib.Base SignalClient.Model SignalClient.Proofs SignalClient.ProofsAck.
+   Part 1: the composition of two clients (client/client.go), FIFO streams and
+   the relay's Session RPC (server/session.go, with pending acks and clears
+   dropped on every epoch change), honest or message-dropping: end to end.
+   Part 2: the client transition system alone, the relay being an ARBITRARY
+   environment: what an Ack / Clear can touch, and what a successful Send needs. *)
+From Bifrost Require Import Lib.Base SignalClient.Model SignalClient.Proofs SignalClient.ProofsAck
+  SignalClient.Compose SignalClient.ProofsE2E.
+
+(* End to end, for ALL histories of the composed system (any interleaving of
+   application calls Send / Recv / cancel on both sides, client goroutines,
+   stream starts and failures, relay attach / request handling / write loop /
+   detach, and loss of queued SendMsg / Ack / Clear / RecvMsg messages): if a
+   Send of peer x reports success for message m while x's session epoch is eo,
+   then earlier in the history a Recv of the partner returned exactly m while
+   the partner's session epoch was the same eo. *)
+Theorem c21_ack : forall acts w tr pre post x i m eo,
+  wrun w_init acts = (w, tr) ->
+  tr = pre ++ (x, OSendDone i true m eo) :: post ->
+  exists j, In (negb x, ORecvDone j (Some m) eo) pre.
+Proof. exact send_ok_after_partner_recv. Qed.
+Print Assumptions c21_ack.
+
+(* non-vacuity of c21_ack: a history in which A's Send succeeds in epoch 2 after
+   B's Recv returned the message in epoch 2 ... *)
+Definition pA := true.
+Definition pB := false.
+Definition ex_attach : list wact :=
+  [WConn pA; RAttach pA; WConn pB; RAttach pB; RLoop pA; RLoop pB; WDeliver pA; WDeliver pB;
+   WCli pA ALoop; WCli pB ALoop].
+Definition ex_flow : list wact :=
+  ex_attach ++
+  [WCli pA (ASendStart [7]); WCli pA (ASendIter 0%nat); WCli pA ALoop; RReq pA; RLoop pB; WDeliver pB;
+   WCli pB ARecvStart; WCli pB (ARecvIter 0%nat); WCli pB ALoop; RReq pB; RLoop pA; WDeliver pA;
+   WCli pA (ASendIter 0%nat)].
+Example c21_ack_nonvacuous :
+  In (pA, OSendDone 0%nat true (sign_msg 0 [7] 1) (Some 2)) (snd (wrun w_init ex_flow)) /  In (pB, ORecvDone 0%nat (Some (sign_msg 0 [7] 1)) (Some 2)) (snd (wrun w_init ex_flow)).
+Proof. vm_compute. split; tauto. Qed.
+
+(* ... and the back-pressure history of the stale-ack defect (A's write loop at
+   the relay does not run while B acks, detaches and re-attaches): with the
+   relay as it is now A's Send does not report success on the strength of the
+   old epoch's ack; the ack is gone and the message is re-sent in epoch 4. *)
+Definition ex_stale : list wact :=
+  ex_attach ++
+  [WCli pA (ASendStart [7]); WCli pA (ASendIter 0%nat); WCli pA ALoop; RReq pA; RLoop pB; WDeliver pB;
+   WCli pB ARecvStart; WCli pB (ARecvIter 0%nat); WCli pB ALoop; RReq pB;
+   WFail pB; WCli pB ALoop; WCli pB ALoopErr; RDetach pB; WConn pB; RAttach pB;
+   RLoop pA; WDeliver pA; WDeliver pA; WCli pA (ASendIter 0%nat); WCli pA ALoop].
+Example c21_stale_ack_regression :
+  let r := wrun w_init ex_stale in
+  (forall i m e, ~ In (pA, OSendDone i true m e) (snd r)) /  t_open (tk (s_cl (w_a (fst r)))) = Some 4 /\ t_acked (tk (s_cl (w_a (fst r)))) = false /  In (pA, OReq (RSend 4 (sign_msg 0 [7] 1))) (snd r).
+Proof.
+  vm_compute. split; [|split; [reflexivity|split; [reflexivity|tauto]]].
+  intros i m e H. repeat (destruct H as [H|H]; [discriminate|]). exact H.
+Qed.
 
 (* In every history and against every relay, a Send that reports success for
    message m while the session epoch is e was preceded, in the same epoch e, by
